@@ -249,6 +249,18 @@ pub fn gen(args: &Args, out: &mut dyn Write) {
             emit(out, json!({"op": "parse", "via": via, "bytes": s}));
         }
     }
+    // sizes around 2^8 and 2^16 in one direction (binary formats, patterned data)
+    for (fmt, w, h) in [(5u8, 256u32, 1u32), (6, 256, 1), (5, 257, 1), (6, 1, 257), (5, 255, 2), (6, 300, 3), (5, 4096, 1), (5, 65536, 1), (5, 65537, 1), (6, 1, 65537), (5, 70000, 3)] {
+        let mut f = format!("P{} {} {} 255\n", fmt, w, h).into_bytes();
+        let per = if fmt == 6 { 3 } else { 1 };
+        f.extend((0..(w as usize * h as usize * per)).map(|i| (i * 31 + 7) as u8));
+        for via in ["parse_pnm", "read_pnm", "read_trickle"] {
+            if w as usize * h as usize > 5000 && via == "read_trickle" {
+                continue;
+            }
+            emit(out, json!({"op": "parse", "via": via, "bytes": f}));
+        }
+    }
     for i in 0..n {
         let big = i % 97 == 5;
         let (w, h) = if big {
